@@ -76,6 +76,10 @@ func main() {
 			terms = append(terms, runUpgradeCase(ta, *seed, i, rep, *profile))
 			rep.Cases++
 		}
+	case "sweep":
+		require, caseType, fn = "HandlersSweep", "(Z * list Z * Z * Z)%type", "hmismatches"
+		ta := NewTestApp(GenOpts{Time: time.Unix(1690000000, 0).UTC()})
+		terms = runSweep(ta, rep)
 	case "sig":
 		require, caseType, fn = "Sig", "scase", "smismatches"
 		ta := NewTestApp(GenOpts{Time: time.Unix(1690000000, 0).UTC()})
